@@ -184,7 +184,7 @@ pub fn run(ctx: &Ctx) -> Report {
     let (_, log) = with_log(|| Polynomial::new(vec![1.0, -3.0, 0.5, 2.0, 1.0]).roots(true));
     let hook_live = log.calls > 0;
     let units = 12u64 * 10 * 2; // degree x class x {real, complex}
-    let reps = ctx.vol(3000, 100_000);
+    let reps = ctx.vol(12_000, 600_000);
     let stats = par_run(ctx, TAG, units, |u, rng, st| {
         let n = (u / 20) as usize + 1;
         let class = (u / 2) % 10;
